@@ -353,6 +353,7 @@ func init() {
 	register("sync-deep", func(c *Ctx) {
 		for i := 0; i < c.N; i++ {
 			syncDeepWarm(c, i)
+			syncDeepWindow(c, i)
 		}
 	})
 }
